@@ -93,7 +93,7 @@ HttpCases ==
   {[fam |-> "http", mech |-> "httpcache", kind |-> "http", exp |-> "absent", cfg |-> h.dttl, ovr |-> "unset",
     seq |-> "repeat", off |-> NoOff, c |-> DefaultTTLOf(h.dttl), lam |-> 0,
     near |-> HasFresh(h) /\ Fresh(h) <= 0, http |-> h] :
-     h \in [cc : {"maxage", "maxage0", "nostore_maxage", "private_maxage", "absent"},
+     h \in [cc : {"maxage", "maxage0", "nostore_maxage", "private_maxage", "nocache_maxage", "absent"},
             expires : {"future", "past", "absent"}, date : {"now", "skewed", "absent"}, dttl : {"zero", "set"}]}
 
 ---------------------------------------------------------------------------
